@@ -1517,7 +1517,7 @@ class Simulation:
                 self.__freq_inp2key = {
                     float(v): k for k, v in self.survey.frequencies.items()
                 }
-            frequency = self.__freq_inp2key[frequency]
+            frequency = self.__freq_inp2key[float(frequency)]
 
         return frequency
 
